@@ -227,28 +227,23 @@ Section Std.
   (** ** Genesis *)
   Variable module : bytes.
 
-  Fixpoint nsend (steps : list istep) : nat :=
+  Fixpoint nsend (steps : list (bool * istep)) : nat :=
     match steps with
     | [] => O
-    | ISendToModule _ :: t => S (nsend t)
+    | (_, ISendToModule _) :: t => S (nsend t)
     | _ :: t => nsend t
     end.
 
-  Definition fa_ok (g : genesis) (fa : option nat) : Prop :=
-    match fa with None => True | Some i => g_from g = FromAcct i end.
-
-  (** InitGenesis keeps the bank invariant and the supply whatever its statements are; what it stores are the
-      validated parameters of the genesis state. *)
+  (** InitGenesis keeps the bank invariant and the supply whatever its statements are. *)
   Lemma init_steps_inv steps g : forall fa w w',
     bank_ok (w_accts w) (w_sup w) -> init_steps pairs lgs cgs module steps g fa w = Ok w' ->
     bank_ok (w_accts w') (w_sup w') /\ w_sup w' = w_sup w /\ w_height w' = w_height w.
   Proof.
-    induction steps as [|st steps IH]; intros fa w w' Hb; cbn [init_steps]; intro H.
+    induction steps as [|[t st] steps IH]; intros fa w w' Hb; cbn [init_steps]; intro H.
     - inversion H; subst. auto.
-    - destruct st.
+    - destruct (t && from_empty g); [apply IH in H; auto|]. destruct st.
       + destruct (set_param_set pairs lgs cgs (g_enable g) (g_rewards g) (w_ps w)) as [s'| |]; try discriminate.
         apply IH in H; [|exact Hb]. exact H.
-      + destruct (g_from g); [inversion H; subst; auto | apply IH in H; auto | apply IH in H; auto].
       + destruct (g_from g); try discriminate. apply IH in H; auto.
       + destruct (negb (bytes_eqb module0 module)); [discriminate|]. destruct fa as [i|]; [|discriminate].
         destruct (bank_send (w_accts w) i A_POOL (g_init g)) as [a| |] eqn:E; try discriminate.
@@ -256,26 +251,31 @@ Section Std.
       + discriminate.
   Qed.
 
+  (** What it stores are the validated parameters of the genesis state. *)
   Lemma init_steps_params steps g : forall fa w w',
     init_steps pairs lgs cgs module steps g fa w = Ok w' ->
-    (set_before_stop steps = true \/
+    (sets_params_always steps = true \/
      exists r, g_rewards g = lift_coins r /\ validate_rewards r = true /\
                get_params pairs (w_ps w) = Ok {| enable := g_enable g; rewards := r |}) ->
     exists r, g_rewards g = lift_coins r /\ validate_rewards r = true /\
               get_params pairs (w_ps w') = Ok {| enable := g_enable g; rewards := r |}.
   Proof.
-    induction steps as [|st steps IH]; intros fa w w'; cbn [init_steps set_before_stop]; intros H Hpre.
+    unfold sets_params_always.
+    induction steps as [|[t st] steps IH]; intros fa w w'; cbn [init_steps existsb fst snd]; intros H Hpre.
     - inversion H; subst. destruct Hpre as [Hpre|Hpre]; [discriminate|exact Hpre].
-    - destruct st.
-      + destruct (set_param_set pairs lgs cgs (g_enable g) (g_rewards g) (w_ps w)) as [s'| |] eqn:E; try discriminate.
-        apply (IH _ _ _ H). right. cbn. exact (set_param_set_ok pairs lgs cgs Hp Hg _ _ _ _ E).
-      + destruct Hpre as [Hpre|Hpre]; [discriminate|].
-        destruct (g_from g); [inversion H; subst; exact Hpre | apply (IH _ _ _ H); right; exact Hpre | apply (IH _ _ _ H); right; exact Hpre].
-      + destruct (g_from g); try discriminate. apply (IH _ _ _ H). destruct Hpre as [Hpre|Hpre]; [left|right]; exact Hpre.
-      + destruct (negb (bytes_eqb module0 module)); [discriminate|]. destruct fa as [i|]; [|discriminate].
-        destruct (bank_send (w_accts w) i A_POOL (g_init g)) as [a| |]; try discriminate.
-        apply (IH _ _ _ H). destruct Hpre as [Hpre|Hpre]; [left|right]; exact Hpre.
-      + discriminate.
+    - destruct (t && from_empty g) eqn:Et.
+      + apply (IH _ _ _ H). destruct Hpre as [Hpre|Hpre]; [left|right; exact Hpre].
+        apply andb_true_iff in Et as [-> _]. cbn in Hpre. exact Hpre.
+      + destruct st.
+        * destruct (set_param_set pairs lgs cgs (g_enable g) (g_rewards g) (w_ps w)) as [s'| |] eqn:E; try discriminate.
+          apply (IH _ _ _ H). right. cbn. exact (set_param_set_ok pairs lgs cgs Hp Hg _ _ _ _ E).
+        * destruct (g_from g); try discriminate. apply (IH _ _ _ H).
+          destruct Hpre as [Hpre|Hpre]; [left|right; exact Hpre]. cbn [is_set_params] in Hpre. rewrite andb_false_r in Hpre. exact Hpre.
+        * destruct (negb (bytes_eqb module0 module)); [discriminate|]. destruct fa as [i|]; [|discriminate].
+          destruct (bank_send (w_accts w) i A_POOL (g_init g)) as [a| |]; try discriminate.
+          apply (IH _ _ _ H). destruct Hpre as [Hpre|Hpre]; [left|right; exact Hpre].
+          cbn [is_set_params] in Hpre. rewrite andb_false_r in Hpre. exact Hpre.
+        * discriminate.
   Qed.
 
   (** With a funding account other than the pool, a returning InitGenesis moved exactly
@@ -288,12 +288,12 @@ Section Std.
     (forall k, k <> A_POOL -> k <> i -> acct (w_accts w') k = acct (w_accts w) k).
   Proof.
     intros fa w w' Hfrom Hi. revert fa w w'.
-    induction steps as [|st steps IH]; intros fa w w' Hfa; cbn [init_steps nsend]; intro H.
+    assert (Hne : from_empty g = false) by (unfold from_empty; rewrite Hfrom; reflexivity).
+    induction steps as [|[t st] steps IH]; intros fa w w' Hfa; cbn [init_steps nsend]; intro H.
     - inversion H; subst. repeat split; intros; cbn; try lia; reflexivity.
-    - destruct st.
+    - rewrite Hne, andb_false_r in H. destruct st.
       + destruct (set_param_set pairs lgs cgs (g_enable g) (g_rewards g) (w_ps w)) as [s'| |]; try discriminate.
         apply (IH _ _ _ Hfa) in H. exact H.
-      + rewrite Hfrom in H. apply (IH _ _ _ Hfa) in H. exact H.
       + rewrite Hfrom in H. apply (IH (Some i)) in H; [exact H|right; reflexivity].
       + destruct (negb (bytes_eqb module0 module)); [discriminate|]. destruct Hfa as [->| ->]; [discriminate|].
         destruct (bank_send (w_accts w) i A_POOL (g_init g)) as [a| |] eqn:E; try discriminate.
@@ -307,31 +307,37 @@ Section Std.
       + discriminate.
   Qed.
 
-  (** Importing a state without From (every export) executes nothing after the parameters. *)
+  (** Importing a state without From (every export) executes nothing but the storing of the parameters. *)
   Lemma init_steps_no_from steps g : forall fa w w',
-    g_from g = FromEmpty -> stop_before_bank steps = true ->
+    g_from g = FromEmpty -> only_params_without_from steps = true ->
     init_steps pairs lgs cgs module steps g fa w = Ok w' ->
     w_accts w' = w_accts w /\ w_sup w' = w_sup w /\ w_height w' = w_height w.
   Proof.
     intros fa w w' Hfrom. revert fa w w'.
-    induction steps as [|st steps IH]; intros fa w w'; cbn [init_steps stop_before_bank]; intros Hs H.
+    assert (He : from_empty g = true) by (unfold from_empty; rewrite Hfrom; reflexivity).
+    unfold only_params_without_from.
+    induction steps as [|[t st] steps IH]; intros fa w w'; cbn [init_steps forallb fst snd]; intros Hs H.
     - inversion H; subst; auto.
-    - destruct st; try discriminate.
-      + destruct (set_param_set pairs lgs cgs (g_enable g) (g_rewards g) (w_ps w)) as [s'| |]; try discriminate.
+    - apply andb_true_iff in Hs as [Hh Hs]. rewrite He, andb_true_r in H. destruct t.
+      + apply (IH _ _ _ Hs) in H. exact H.
+      + cbn [orb] in Hh. destruct st; try discriminate.
+        destruct (set_param_set pairs lgs cgs (g_enable g) (g_rewards g) (w_ps w)) as [s'| |]; try discriminate.
         apply (IH _ _ _ Hs) in H. exact H.
-      + rewrite Hfrom in H. inversion H; subst; auto.
   Qed.
 
   Lemma init_steps_no_from_total steps g r : forall w,
-    g_from g = FromEmpty -> stop_before_bank steps = true -> forallb istep_known steps = true ->
+    g_from g = FromEmpty -> only_params_without_from steps = true ->
     g_rewards g = lift_coins r -> validate_rewards r = true ->
     exists w', init_steps pairs lgs cgs module steps g None w = Ok w'.
   Proof.
     intros w Hfrom. revert w.
-    induction steps as [|st steps IH]; intros w; cbn [init_steps stop_before_bank forallb]; intros Hs Hk Hr Hv; [eexists; reflexivity|].
-    destruct st; try discriminate.
-    - rewrite Hr. destruct (set_param_set_total pairs lgs cgs Hp Hg (g_enable g) r (w_ps w) Hv) as (s' & ->).
-      apply andb_true_iff in Hk as [_ Hk]. apply IH; assumption.
-    - rewrite Hfrom. eexists; reflexivity.
+    assert (He : from_empty g = true) by (unfold from_empty; rewrite Hfrom; reflexivity).
+    unfold only_params_without_from.
+    induction steps as [|[t st] steps IH]; intros w; cbn [init_steps forallb fst snd]; intros Hs Hr Hv; [eexists; reflexivity|].
+    apply andb_true_iff in Hs as [Hh Hs]. rewrite He, andb_true_r. destruct t.
+    - apply IH; assumption.
+    - cbn [orb] in Hh. destruct st; try discriminate.
+      rewrite Hr. destruct (set_param_set_total pairs lgs cgs Hp Hg (g_enable g) r (w_ps w) Hv) as (s' & ->).
+      apply IH; assumption.
   Qed.
 End Std.
